@@ -146,6 +146,87 @@ def fam_nest():
         yield L.wrap_stats([('stat', ifp, [L.T('if'), L.min_tree('exp'), L.T('then'), blk, elifs, els, L.T('end')])])
 
 
+CHAIN_OPS = ['field', 'index', 'call0', 'call1', 'calltbl', 'callstr', 'method0', 'methodstr']
+
+
+def _pi(nt, label, nth=0):
+    return [i for i, (l, _) in enumerate(L.G[nt]) if l == label][nth]
+
+
+def chain_tree(base, ops):
+    """prefixexp derivation for base followed by a chain of suffix operations. Returns (tree, ends_in)."""
+    name = L.min_tree('Name')
+    if base == 'name':
+        cur = ('prefixexp', _pi('prefixexp', 'p_var'), [('var', _pi('var', 'v_name'), [name])])
+        ends = 'var'
+    else:
+        # base = 'paren' or 'paren:<exp production label>': every kind of expression inside the parentheses
+        inner = L.min_tree('exp')
+        if ':' in base:
+            lab = base.split(':')[1]
+            pi = _pi('exp', lab)
+            inner = ('exp', pi, [L.min_tree(x) for x in L.G['exp'][pi][1]])
+        cur = ('prefixexp', _pi('prefixexp', 'p_paren'), [L.T('('), inner, L.T(')')])
+        ends = 'paren'
+    args = {
+        'call0': ('args', _pi('args', 'a_empty'), [L.T('('), L.T(')')]),
+        'call1': ('args', _pi('args', 'a_list'), [L.T('('), L.min_tree('explist'), L.T(')')]),
+        'calltbl': ('args', _pi('args', 'a_table'), [L.min_tree('table')]),
+        'callstr': ('args', _pi('args', 'a_string'), [L.min_tree('String')]),
+    }
+    for op in ops:
+        if op == 'field':
+            v = ('var', _pi('var', 'v_field'), [cur, L.T('.'), name])
+            cur = ('prefixexp', _pi('prefixexp', 'p_var'), [v])
+            ends = 'var'
+        elif op == 'index':
+            v = ('var', _pi('var', 'v_index'), [cur, L.T('['), L.min_tree('exp'), L.T(']')])
+            cur = ('prefixexp', _pi('prefixexp', 'p_var'), [v])
+            ends = 'var'
+        elif op.startswith('call'):
+            c = ('call', _pi('call', 'c_call'), [cur, args[op]])
+            cur = ('prefixexp', _pi('prefixexp', 'p_call'), [c])
+            ends = 'call'
+        else:
+            a = args['call0'] if op == 'method0' else args['callstr']
+            c = ('call', _pi('call', 'c_method'), [cur, L.T(':'), name, a])
+            cur = ('prefixexp', _pi('prefixexp', 'p_call'), [c])
+            ends = 'call'
+    return cur, ends
+
+
+def fam_chain(maxlen=3):
+    """Every prefix chain of <= maxlen suffix operations on a name / a parenthesised expression, as assignment target,
+    call statement, assigned value, inside a block and as a short-if body."""
+    import itertools
+    assign_pi = _pi('stat', 'assign')
+    call_pi = _pi('stat', 'callstat')
+    bases = ['name', 'paren'] + ['paren:' + l for l, _ in L.G['exp'] if l != 'e_nil']
+    for base in bases:
+        for n in range(1, (maxlen if base in ('name', 'paren') else min(maxlen, 2)) + 1):
+            for ops in itertools.product(CHAIN_OPS, repeat=n):
+                tree, ends = chain_tree(base, ops)
+                stats = []
+                # as a value:  a = <chain>
+                val = ('exp', _pi('exp', 'e_prefix'), [tree])
+                stats.append(('stat', assign_pi, [L.min_tree('varlist'), L.min_tree('assignop'),
+                                                  ('explist', _pi('explist', 'el_one'), [val])]))
+                if ends == 'var':
+                    var = tree[2][0]
+                    stats.append(('stat', assign_pi, [('varlist', _pi('varlist', 'vl_one'), [var]), L.min_tree('assignop'),
+                                                      L.min_tree('explist')]))
+                elif ends == 'call':
+                    stats.append(('stat', call_pi, [tree[2][0]]))
+                for st in stats:
+                    if base != 'name' and (st[1] != assign_pi or st is not stats[0]):
+                        # a statement starting with '(' : only first in its block
+                        yield L.wrap_stats([st])
+                        yield L.wrap_stats([host_with_block('function', block_of([st]))])
+                        continue
+                    yield L.wrap_stats([st, L.default_stat('assign')])
+                    yield L.wrap_stats([host_with_block('do', block_of([st, L.default_stat('local')]))])
+
+
 def all_pairs():
     nullable, first, last, adj = L.analysis()
     return sorted(adj)
@@ -160,6 +241,8 @@ def programs(tier, family, k, n):
         src = fam_seq()
     elif family == 'nest':
         src = fam_nest()
+    elif family == 'chain':
+        src = fam_chain(3 if tier == 'thorough' else 2)
     elif family == 'pairs':
         for i, pair in enumerate(all_pairs()):
             if i % n != k:
@@ -193,6 +276,15 @@ def sources_for(prog, tier, family):
             out.append((src, desc))
     add(L.assemble(prog, {}), 'default')
     add(L.tight_layout(prog)[0], 'tight')
+    # one statement per line; every token on its own line (LF and CRLF), wherever a line end is allowed
+    lines = L.canonical_lines(prog)
+    add(b''.join(L.line_text(prog, idxs) + b'\n' for idxs in lines), 'lines')
+    for nl, nm in ((b'\n', 'token-per-line'), (b'\r\n ', 'token-per-line-crlf-indented')):
+        seps = {}
+        for g in range(1, n):
+            if g not in prog.no_nl and L.gap_ok(prog.toks[g - 1].text, nl, prog.toks[g].text):
+                seps[g] = nl
+        add(L.assemble(prog, seps), nm)
     limit = 14 if (tier == 'thorough' or family != 'stat') else 12
     if family == 'pairs':
         # every separator in the gap between the two terminals of the pair
@@ -202,7 +294,7 @@ def sources_for(prog, tier, family):
                     (a == 'NL' and prog.toks[g].cls == b):
                 for sep in L.legal_seps(prog, g):
                     add(L.assemble(prog, {g: sep}), 'pair-gap')
-    elif n <= limit:
+    elif n <= limit and (family != 'chain' or tier == 'thorough'):
         for src, seps in L.layouts(prog, 1):
             add(src, 'dev1')
     # no final newline
@@ -291,7 +383,7 @@ def culprit(prog, src, e):
 
 
 # ---------------------------------------------------------------- sharding (shared with C06/C09/C01...)
-FAMILIES = ['stat', 'seq', 'nest', 'pairs']
+FAMILIES = ['stat', 'seq', 'nest', 'chain', 'pairs']
 
 
 def program_shards(tier, seed, tag='c08'):
